@@ -50,7 +50,6 @@ def order_by_sort_key(check, h, call, subst):
                     body, param = rs[0].value, n.args.args[0].arg
     if body is None:
         raise AnalysisError('ordering helper: sort key not understood')
-    body = resolve_expr(body, subst)
     # rank table: dict((name, pos) for pos, name in enumerate(SortPriority)) / {name: pos for ...}
     rank_names = set()
     for n in ast.walk(h.node):
@@ -60,8 +59,11 @@ def order_by_sort_key(check, h, call, subst):
     ok, why = False, 'sort key `%s` is not (priority rank, name)' % unparse(body)
     if isinstance(body, ast.Tuple) and len(body.elts) == 2 and unparse(body.elts[1]) == param:
         r = body.elts[0]
-        if isinstance(r, ast.Call) and isinstance(r.func, ast.Attribute) and r.func.attr == 'get' and isinstance(r.func.value, ast.Name) \
-                and r.func.value.id in rank_names and len(r.args) == 2 and unparse(r.args[0]) == param:
+        r = resolve_expr(r, {k: v for k, v in subst.items() if k not in rank_names})
+        is_rank_table = isinstance(r, ast.Call) and isinstance(r.func, ast.Attribute) and (
+            (isinstance(r.func.value, ast.Name) and r.func.value.id in rank_names) or
+            ('enumerate' in unparse(r.func.value) and 'SortPriority' in unparse(r.func.value)))
+        if is_rank_table and r.func.attr == 'get' and len(r.args) == 2 and unparse(r.args[0]) == param:
             d = resolve_expr(r.args[1], subst)
             last = unparse(d).startswith('len(') or (isinstance(d, ast.Constant) and isinstance(d.value, (int, float)) and d.value >= 1000)
             ok = bool(last)
